@@ -415,6 +415,30 @@ def r08_2(ctx, repo):
         else:
             ctx.error(rule, '%s: split point `%s` is outside the recognised '
                       'idioms' % (construct, txt[:60]))
+    # (c) the unfiltered shortcut `if mask is None: return <wrapped result>`
+    # is taken only when nothing is fixed: a test that also holds for other
+    # reasons (`mask is None or <anything else>`) returns the wrapped model's
+    # full-length result while parameters are fixed
+    for cls in WRAPPERS:
+        for mname, fn in sorted(repo.cls(cls).methods.items()):
+            for st in ast.walk(fn):
+                if not isinstance(st, ast.If) or MASK not in U(st.test):
+                    continue
+                t = st.test
+                if isinstance(t, ast.BoolOp) and isinstance(t.op, ast.Or) \
+                        and any(_mask_test(v) is False for v in t.values) \
+                        and any(MASK not in U(v) for v in t.values) \
+                        and any(isinstance(x, ast.Return)
+                                for b in st.body for x in ast.walk(b)):
+                    other = [U(v) for v in t.values if MASK not in U(v)]
+                    ctx.violation(
+                        rule, repo.loc(st, cls, mname),
+                        '%s.%s' % (cls, mname), 'weakened shortcut',
+                        'the shortcut that returns the wrapped model\'s '
+                        'result unfiltered is also taken when `%s` holds '
+                        'while parameters are fixed: the result then has the '
+                        'wrapped model\'s length / layout, not the reduced '
+                        'one' % other[0][:50])
     ctx.floor(rule, 5)
 
 
